@@ -26,6 +26,7 @@ warnings.filterwarnings("ignore")
 VERIF = os.path.dirname(os.path.dirname(os.path.abspath(__file__)))
 CASE_TIMEOUT_S = 60
 MAX_NEW_SIGS = 5
+FAILFAST = 40  # failing cases per shard after which the shard stops generating
 
 
 from pgv.core import CaseTimeout  # noqa: E402
@@ -70,18 +71,35 @@ class Recorder:
         self.new = {}
         self.known_counts = Counter()
         self.harness_error = None
+        self.failing_cases = 0
+        self.stop = False
+        self.t0 = time.time()
+        self.budget = None
+        self.case_timeout = getattr(mod, "CASE_TIMEOUT_S", CASE_TIMEOUT_S)
 
     def run_case(self, case, origin="gen"):
         """Executes check_case under the watchdog, buckets failures. Returns list of Fail."""
         from pgv.core import Fail, jdump
+        if self.stop:
+            return []
+        if self.budget is not None and time.time() - self.t0 > self.budget:
+            # wall budget used up: the remainder of this shard's campaign is inconclusive, never a violation
+            self.stop = True
+            self.ctx.count("budget_exhausted_shards")
+            return []
         self.ctx.begin(case)
-        signal.setitimer(signal.ITIMER_REAL, CASE_TIMEOUT_S)
+        signal.setitimer(signal.ITIMER_REAL, self.case_timeout)
         try:
             fails = self.mod.check_case(case, self.ctx) or []
         except CaseTimeout:
-            fails = [Fail("hang", "case did not finish within %ds" % CASE_TIMEOUT_S)]
+            fails = [Fail("hang", "case did not finish within %ds" % self.case_timeout)]
         finally:
             signal.setitimer(signal.ITIMER_REAL, 0)
+        if fails:
+            self.failing_cases += 1
+            if self.failing_cases >= FAILFAST:
+                self.stop = True  # enough evidence; do not grind through a badly broken tree
+                self.ctx.count("failfast_shards")
         for f in fails:
             if f.sig in self.known:
                 self.known_counts[f.sig] += 1
@@ -124,6 +142,7 @@ def run_shard(a):
         ctx = Ctx()
         ctx.tier = tier
         rec = Recorder(mod, ctx, load_known(pid))
+        rec.budget = getattr(mod, "TIME_BUDGET_S", {"quick": 150, "thorough": 2400})[tier]
         if hasattr(mod, "setup_worker"):
             mod.setup_worker(tier)
         # 1. regression corpus (shard 0)
